@@ -9,7 +9,7 @@ import pandas_market_calendars
 from tesim import core, xy, epicheck
 
 PROP = "C18"
-PLAN = {"quick": 250, "thorough": 12000}
+PLAN = {"quick": 300, "thorough": 12000}
 TIMEOUT = 120
 CHUNK = 8
 RULE = ("seeded tabular worlds: daily feature / price / rate tables of 30-120 rows with injected data faults (NaN cells, missing "
@@ -28,8 +28,8 @@ ASSUMPTIONS = [
 ]
 COMPONENTS = {"real": ["TradingEnvXY (data preparation, _make_timesteps, _make_transmitter)", "State", "Transmitter", "TradingEnv", "sklearn transformers", "pandas_market_calendars"],
               "harness": ["table generator with data faults"], "stub": []}
-PROBE_FLOORS = {"long_window_mid_data_start": 8, "holiday_inside_range": 30, "x_nan_cells": 40, "x_missing_rows": 30, "window_gt_1": 100, "stride_used": 40,
-                "y_nan_cells": 15, "rate_given": 60, "folds_used": 20, "x_starts_late": 30}
+PROBE_FLOORS = {"long_window_mid_data_start": 5, "holiday_inside_range": 18, "x_nan_cells": 13, "x_missing_rows": 11, "window_gt_1": 24, "stride_used": 12,
+                "y_nan_cells": 13, "rate_given": 16, "folds_used": 10, "x_starts_late": 9}
 HOL = {}
 
 
